@@ -37,6 +37,16 @@ def obligations(ctx):
         for (rsz, asz) in ((2, 1), (3, 1), (1, 3), (2, 0)):
             so = (1, 1, 0) if var == 0 else (0, 0, 0)
             obs.append(g.vec_ob(op, var, 2, rsz, asz, 0, so, avx=(rsz + asz) % 2, alias=1, pmode=1, tag="inplace/", timeout=600 if ctx.quick else 3000))
+    # equal padded strides for every operand (res_sl == a_sl == b_sl == N+2: "same layout" fast paths must still respect the gaps and the extents)
+    for (op, var) in g.PAIRS:
+        for (rsz, asz, bsz) in ((2, 2, 2), (3, 1, 2), (1, 3, 1)):
+            if var != 0:
+                continue  # big vectors are contiguous by definition
+            for avx in (0, 1):
+                if op in (5, 6):
+                    obs.append(g.vec_ob(op, var, 4, rsz, asz, 0, (2, 2, 2), avx, pmode=0, p=3, tag="eqstride/"))
+                else:
+                    obs.append(g.vec_ob(op, var, 4, rsz, asz if op else 0, bsz if op in (3, 4) else 0, (2, 2, 2), avx, tag="eqstride/"))
     # N=8 (two AVX iterations) on a reduced size set, large stride with sparse buffers is thorough only
     for (op, var) in ((3, 0), (4, 0), (2, 0), (1, 0), (0, 0)):
         for (rsz, asz, bsz) in [s for s in g.sizes_for(op, 2)]:
